@@ -8,7 +8,8 @@ PROP = dict(
               "long-double documented static law + output-only monotonicity/continuity oracles",
     claim="every configuration of the stated parameter boxes is run on the real objects: the zero-time static law on a 0.5 dB grid with 0.01 dB "
           "refinement at every knee breakpoint (both signs, ascending and descending order), the gain-range / ceiling invariants for all "
-          "attack x release combinations on six fixed signal letters, step histories for the time constants, gate hold, and the Agc settling "
+          "attack x release combinations on seven fixed signal letters (incl. bursts separated by exact zeros), step histories for the time constants, "
+          "burst / exact-zero silence / quiet-tone histories (one call and three calls) for the release through digital silence, gate hold, and the Agc settling "
           "box. Exhaustive within the bound, silent outside it; nothing is sampled.",
     note="trusts the harness's long-double rendering of the documented static characteristic (cross-checked by output-only oracles that do not use it)",
     passes=[dict(name="main", flags=["-fno-access-control"])],
@@ -18,9 +19,10 @@ PROP = dict(
          "or the Agc case required a gain below max_gain and was checked for settling / received a non-silent letter",
     bounds=dict(
         quick="static law: T{-50,-30,-10,-3,0} x R{1,2,5,50} x W{0,1,10,20} x fs{8k,192k} x both signs, levels every 0.5 dB in [-100,20] + every 0.01 dB "
-              "within 0.1 dB of T-W/2, T, T+W/2; gain.range: the same box x attack,release in {0,1e-3,0.2,4}^2 x 6 letters of 10^4 samples; "
+              "within 0.1 dB of T-W/2, T, T+W/2, an exact 0.0 interleaved after every 5th level (out 0, gain 1); gain.range: the same box x attack,release in {0,1e-3,0.2,4}^2 x 7 letters of 10^4 samples; "
               "smooth.step: T{-30,-10} x R{2,5,50} x W{0,10} x fs{8k,192k} x attack,release in {0,1e-3,0.01,0.2,4}^2 (no 4 s at 192 kHz), "
-              "4 step phases each; gate: thr{-140,-40,0} x fs{8k,192k} x attack,release,hold in {0,1e-3,0.05}^3, step history + 6 letters of 10^4; "
+              "4 step phases each; smooth.silence: T{-30,-10} x R{2,5,50}/limiter x W{0,10} x fs{8k,192k} x attack{0,0.01} x release{1e-3,0.01,0.2} x "
+              "k{1,5,50} release times of exact zeros x {1 call, 3 calls}; gate.silence: thr{-40,0} x fs{8k,192k} x attack{1e-3,0.05} x release{0,1e-3} x hold{0,1e-3,0.05} x k{1,5,50} x {1,3 calls}; gate: thr{-140,-40,0} x fs{8k,192k} x attack,release,hold in {0,1e-3,0.05}^3, step history + 7 letters of 10^4; "
               "Agc: target{0.01,1,100} x level -60..+20 dB step 10 x avg{1,10,100,1000} x max_gain{20,60} x 3 constant-envelope letters (real +A, real +-A, "
               "complex A e^{j0.7k}), 20000 samples; gain bound: target x avg{1,2,3,7,10,100,1000} x max_gain x {silence, burst, level blocks, modulated bursts + silence}",
         thorough="as quick with R{1,2,3,5,10,50}, fs{8k,44.1k,192k}, letters of 10^5 samples, smooth.step including 4 s at 192 kHz, "
@@ -32,6 +34,9 @@ PROP = dict(
         "the worst excess is recorded)",
         "continuity is tested on the level grid as 'output step <= input step + 1e-6 dB' (the documented curve has slope in [1/R,1]) and monotonicity as "
         "'output step >= -1e-6 dB'; both use outputs only",
+        "digital silence: exact 0.0 input is below every threshold, so the static target is 0 dB (gate: closed) from the first zero sample on; after "
+        "fs*t (+1 sample +1 %) samples of zeros >= 0.8 of the step (the 10->90 % fraction; a one-pole covers 0.889) must be released, n90-n10 = fs*t as in "
+        "smooth.step, and under zero attack/release a zero sample reports gain 1 (|gain-1| <= 1e-12) and out 0",
         "10%->90% time is measured in samples on the dB gain (compressor/limiter) or linear gain (gate) and must be fs*t +- (1 sample + 1 %)",
         "NoiseGate hold: the gain is frozen for floor(hold*fs) samples after the level falls below the threshold, measured on a gate whose hold "
         "counter was reset by a preceding opening phase (weaker reading; interrupted holds are not judged)",
